@@ -127,3 +127,687 @@ Proof.
 Qed.
 
 End Pow.
+
+(** ** 2. the final shift of `pow(10, e)` succeeds on both back-ends when the result fits *)
+Section Shl.
+Variable c : config.
+Variable L : limits.
+Variable b : build.
+Hypothesis HL : LIMB_BITS L = 64.
+Hypothesis Hlimbs : BIGINT_LIMBS L < 2 ^ 26.
+
+Lemma norm_len_bound l : limbs_ok l -> is_normalized l = true -> lval l < B64 ^ BIGINT_LIMBS L ->
+  zlen l <= BIGINT_LIMBS L.
+Proof.
+  intros Hok Hn Hb. pose proof (lval_nonneg _ Hok) as Hnn.
+  assert (Hc0 : 0 <= BIGINT_LIMBS L).
+  { destruct (Z_lt_le_dec (BIGINT_LIMBS L) 0) as [Hneg|Hpos]; [|exact Hpos].
+    rewrite Z.pow_neg_r in Hb by assumption. lia. }
+  destruct l as [|x r] eqn:E; [change (zlen (@nil Z)) with 0; lia|]. rewrite <- E in *.
+  assert (Hne : l <> []) by (rewrite E; discriminate).
+  pose proof (normalized_lower_bound _ Hok Hn Hne) as Hlow.
+  destruct (Z_lt_le_dec (BIGINT_LIMBS L) (zlen l)) as [Hlt|]; [|assumption].
+  exfalso. pose proof (B64pow_mono (BIGINT_LIMBS L) (zlen l - 1) ltac:(lia)). lia.
+Qed.
+
+Lemma shl_good v n :
+  vgood c L v -> 0 < lval (vl v) -> 0 <= n < 2 ^ 64 ->
+  lval (vl v) * 2 ^ n < B64 ^ BIGINT_LIMBS L ->
+  exists v', shl c L b v n = Ok (Some v') /\ lval (vl v') = lval (vl v) * 2 ^ n /\
+             limbs_ok (vl v') /\ is_normalized (vl v') = true /\ zlen (vl v') <= BIGINT_LIMBS L.
+Proof.
+  intros G Hp Hn Hb. pose proof G as (H1 & H2 & H3 & H4 & H5).
+  pose proof (pow2_gt0 n ltac:(lia)) as H2n.
+  assert (Hlv : lval (vl v) < B64 ^ BIGINT_LIMBS L) by nia.
+  pose proof (norm_len_bound _ H1 H2 Hlv) as Hlen.
+  assert (Hc0 : 0 <= BIGINT_LIMBS L) by (pose proof (zlen_nonneg (vl v)); lia).
+  assert (Hl63 : zlen (vl v) < 2 ^ 63).
+  { apply Z.le_lt_trans with (BIGINT_LIMBS L); [exact Hlen|].
+    apply Z.lt_trans with (2 ^ 26); [exact Hlimbs|]. vm_compute. reflexivity. }
+  assert (Hne : vl v <> []) by (apply lval_pos_nonempty; exact Hp).
+  assert (FIN : forall v', shl c L b v n = Ok (Some v') ->
+    exists v', shl c L b v n = Ok (Some v') /\ lval (vl v') = lval (vl v) * 2 ^ n /\
+             limbs_ok (vl v') /\ is_normalized (vl v') = true /\ zlen (vl v') <= BIGINT_LIMBS L).
+  { intros v' E. exists v'. split; [exact E|].
+    apply shl_spec in E; try assumption. destruct E as (V & O & _ & _ & N).
+    specialize (N H2). split; [exact V|]. split; [exact O|]. split; [exact N|].
+    apply norm_len_bound; try assumption. rewrite V. exact Hb. }
+  destruct (alloc c) eqn:Ea.
+  - (* heap: only the capacity test of shl_limbs can fail *)
+    pose proof (Z.div_mod n 64 ltac:(lia)) as Hdm.
+    pose proof (Z.mod_pos_bound n 64 ltac:(lia)) as Hrem.
+    assert (Hdiv : 0 <= n / 64) by (apply Z.div_pos; lia).
+    assert (Hdlt : n / 64 < 2 ^ 58).
+    { apply Z.div_lt_upper_bound; [lia|]. change (64 * 2 ^ 58) with (2 ^ 64). lia. }
+    assert (H58 : 2 ^ 58 + 2 ^ 63 + 2 < 2 ^ 64) by (vm_compute; reflexivity).
+    assert (Hpow : 2 ^ n = 2 ^ (n mod 64) * B64 ^ (n / 64)).
+    { rewrite B64_pow by lia. rewrite <- pow2_split by lia. f_equal. lia. }
+    set (rem := n mod 64) in *. set (d := n / 64) in *.
+    assert (STAGE2 : forall v1, limbs_ok (vl v1) -> vl v1 <> [] -> is_normalized (vl v1) = true ->
+              zlen (vl v1) <= vcap v1 -> BIGINT_LIMBS L <= vcap v1 -> zlen (vl v1) < 2 ^ 63 + 2 ->
+              lval (vl v1) * B64 ^ d < B64 ^ BIGINT_LIMBS L ->
+              exists v', (if negb (d =? 0) then shl_limbs b v1 d else Ok (Some v1)) = Ok (Some v')).
+    { intros v1 O1 Ne1 N1 I1 C1 Z1 B1.
+      destruct (shl_stage2 b v1 d Hdiv ltac:(lia) O1) as (o & Ho & _ & Hnone).
+      destruct o as [v'|]; [eauto|exfalso].
+      destruct (proj1 Hnone eq_refl) as [Hd0 Hlt].
+      pose proof (proj1 (shl_limbs_none_value v1 d Hdiv O1 Ne1 N1 I1) (conj Hd0 Hlt)) as Hbig.
+      pose proof (zlen_nonneg (vl v1)).
+      pose proof (B64pow_mono (BIGINT_LIMBS L) (vcap v1) ltac:(lia)). lia. }
+    destruct (Z.eqb_spec rem 0) as [Hr0|Hr0]; cbn [negb].
+    + destruct (STAGE2 v H1 Hne H2 H3 H4 ltac:(lia)) as (v' & E).
+      { rewrite Hpow, Hr0, Z.pow_0_r, Z.mul_1_l in Hb. exact Hb. }
+      apply FIN with v'. unfold shl. rewrite HL. fold rem d.
+      replace (negb (rem =? 0)) with false by lia. rewrite obind_ok_some. exact E.
+    + destruct (shl_bits_full c L b v rem HL ltac:(lia) H1) as (o1 & Ho1 & Hs1 & Hh & _).
+      destruct o1 as [v1|]; [|exfalso; apply (Hh Ea); reflexivity].
+      destruct (Hs1 v1 eq_refl) as (V1 & O1 & Len1 & _ & Cap1 & N1). specialize (Cap1 Ea).
+      specialize (N1 H2).
+      pose proof (pow2_gt0 rem ltac:(lia)) as Hprem.
+      assert (Ne1 : vl v1 <> []) by (apply lval_pos_nonempty; rewrite V1; nia).
+      pose proof (grow_ge (vcap v) (zlen (vl v) + 1)) as Hg.
+      assert (I1 : zlen (vl v1) <= vcap v1 /\ vcap v <= vcap v1).
+      { rewrite Len1, Cap1.
+        destruct (shl_carry (vl v) rem =? 0); cbn [negb andb]; [lia|].
+        destruct (zlen (vl v) =? vcap v) eqn:Ez; lia. }
+      destruct (STAGE2 v1 O1 Ne1 N1 ltac:(lia) ltac:(lia)) as (v' & E).
+      { destruct (shl_carry (vl v) rem =? 0); lia. }
+      { rewrite V1, <- Z.mul_assoc, <- Hpow. exact Hb. }
+      apply FIN with v'. unfold shl. rewrite HL. fold rem d.
+      replace (negb (rem =? 0)) with true by lia. rewrite Ho1, obind_ok_some. exact E.
+  - (* stack: [shl_stack_none] *)
+    destruct (shl_no_panic c L b v n HL Hn Hl63 H1) as (o & Eo).
+    destruct o as [v'|]; [apply FIN with v'; exact Eo|exfalso].
+    apply (shl_stack_none c L b v n HL Hn Hl63 H1 Ea Hne H2 H3) in Eo.
+    rewrite (H5 eq_refl) in Eo. lia.
+Qed.
+
+End Shl.
+
+(** ** 3. rounding the top 64 bits with a sticky flag is rounding the whole integer *)
+
+(** the direction callback of [positive_digit_comp] *)
+Definition cb_sticky (tr : bool) (is_odd is_halfway is_above : bool) : bool :=
+  is_above || (is_halfway && tr) || (is_odd && is_halfway).
+
+Lemma rnd_cb_sticky_false mant s : rnd_cb (cb_sticky false) mant s = rnd_ne mant s.
+Proof.
+  rewrite <- rnd_cb_nearest_even. unfold rnd_cb, cb_sticky, cb_nearest_even. cbv zeta.
+  rewrite andb_false_r, orb_false_r. reflexivity.
+Qed.
+
+(** [X = mant * 2^k + rem] with a non-zero remainder exactly when bits were dropped: nearest-even
+    rounding of [mant] at [s] bits, helped by the sticky flag, is nearest-even rounding of [X] at
+    [s + k] bits *)
+Lemma rnd_cb_sticky X mant k rem s :
+  0 <= k -> 1 <= s -> X = mant * 2 ^ k + rem -> 0 <= rem < 2 ^ k ->
+  rnd_cb (cb_sticky (negb (rem =? 0))) mant s = rnd_ne X (s + k).
+Proof.
+  intros Hk Hs HX Hrem.
+  pose proof (pow2_pos k Hk) as HK. pose proof (pow2_pos (s - 1) ltac:(lia)) as HP'.
+  assert (EP : 2 ^ s = 2 * 2 ^ (s - 1)) by (apply pow2_pred; lia).
+  assert (EPK : 2 ^ (s + k) = 2 ^ s * 2 ^ k) by (apply pow2_split; lia).
+  unfold rnd_cb, rnd_ne, cb_sticky. cbv zeta.
+  set (K := 2 ^ k) in *. set (P' := 2 ^ (s - 1)) in *. rewrite EPK, EP.
+  set (q := mant / (2 * P')). set (r := mant mod (2 * P')).
+  assert (Hm : mant = (2 * P') * q + r) by (apply Z.div_mod; lia).
+  assert (Hr : 0 <= r < 2 * P') by (apply Z.mod_pos_bound; lia).
+  assert (HXq : X = q * (2 * P' * K) + (r * K + rem)) by (rewrite HX, Hm; ring).
+  assert (HR : 0 <= r * K + rem < 2 * P' * K) by nia.
+  assert (Eq : X / (2 * P' * K) = q).
+  { symmetry. apply (Z.div_unique_pos X (2 * P' * K) q (r * K + rem)); [exact HR|]. rewrite HXq. ring. }
+  assert (Er : X mod (2 * P' * K) = r * K + rem).
+  { symmetry. apply (Z.mod_unique_pos X (2 * P' * K) q (r * K + rem)); [exact HR|]. rewrite HXq. ring. }
+  rewrite Eq, Er. clearbody q r.
+  destruct (Z.compare_spec r P') as [Ec|Ec|Ec].
+  - (* halfway at the 64-bit level: decided by the sticky bits *)
+    subst r. replace (2 * P' >? 2 * P') with false by lia. replace (2 * P' =? 2 * P') with true by lia.
+    cbn [orb andb]. rewrite andb_true_r.
+    destruct (Z.eqb_spec rem 0) as [E0|E0]; cbn [negb orb].
+    + subst rem. replace (2 * (P' * K + 0) >? 2 * P' * K) with false by lia.
+      replace (2 * (P' * K + 0) =? 2 * P' * K) with true by lia. cbn [orb andb].
+      destruct (Z.odd q); lia.
+    + replace (2 * (P' * K + rem) >? 2 * P' * K) with true by lia. cbn [orb]. lia.
+  - (* below *)
+    replace (2 * r >? 2 * P') with false by lia. replace (2 * r =? 2 * P') with false by lia.
+    cbn [orb andb]. rewrite andb_false_r.
+    assert (r * K + K <= P' * K) by nia.
+    replace (2 * (r * K + rem) >? 2 * P' * K) with false by lia.
+    replace (2 * (r * K + rem) =? 2 * P' * K) with false by lia. cbn [orb andb]. lia.
+  - (* above *)
+    replace (2 * r >? 2 * P') with true by lia. cbn [orb].
+    assert (P' * K + K <= r * K) by nia.
+    replace (2 * (r * K + rem) >? 2 * P' * K) with true by lia. cbn [orb]. lia.
+Qed.
+
+Lemma round_spec_ext f g1 g2 e : (forall s, g1 s = g2 s) -> round_spec f g1 e = round_spec f g2 e.
+Proof. intros H. unfold round_spec. cbv zeta. rewrite !H. reflexivity. Qed.
+
+Section Sticky.
+Variable f : format.
+Hypothesis Hf : rfmt_ok f = true.
+Let ms := MANTISSA_SIZE f.
+Let B := EXPONENT_BIAS f.
+
+Lemma bias_pos : 2 <= B.
+Proof.
+  destruct (rfmt_ok_props f Hf) as [Pms Pew Pbits Phid Pcarry Pmmask Pinf Pbias Pemask Pden Pprec].
+  pose proof (emax_ge_2 f Hf). unfold B. rewrite Pbias. lia.
+Qed.
+
+(** exact (no dropped bits): the callback is the plain nearest-even one *)
+Lemma sticky_exact_rne_bits b mant exp n d :
+  2 ^ 63 <= mant < 2 ^ 64 -> - 63 <= exp <= 2 ^ 30 ->
+  0 < d -> same_value f n d mant exp ->
+  exists r w,
+    round f b (mkExt mant exp) (fun fp s => round_nearest_tie_even b fp s (cb_sticky false)) = Ok r /\
+    extended_to_float f b r = Ok w /\ rne_bits f n d w.
+Proof.
+  intros Hm He Hd Hv.
+  destruct (round_nearest_rne_bits f Hf b mant exp n d Hm He Hd Hv) as (r & w & R & W & S).
+  exists r, w. split; [|split; assumption].
+  rewrite round_cb_Z in R |- * by assumption. rewrite <- R. f_equal.
+  apply round_spec_ext. intros s. rewrite rnd_cb_sticky_false, rnd_cb_nearest_even. reflexivity.
+Qed.
+
+(** dropped bits: [X = mant * 2^k + rem], binary exponent [k] *)
+Lemma sticky_rne_bits b X mant k rem :
+  2 ^ 63 <= mant < 2 ^ 64 -> 0 <= k -> k + B <= 2 ^ 30 ->
+  X = mant * 2 ^ k + rem -> 0 <= rem < 2 ^ k ->
+  exists r w,
+    round f b (mkExt mant (k + B))
+      (fun fp s => round_nearest_tie_even b fp s (cb_sticky (negb (rem =? 0)))) = Ok r /\
+    extended_to_float f b r = Ok w /\ rne_bits f X 1 w.
+Proof.
+  intros Hm Hk He HX Hrem.
+  destruct (rfmt_ok_props f Hf) as [Pms Pew Pbits Phid Pcarry Pmmask Pinf Pbias Pemask Pden Pprec].
+  pose proof (emax_ge_2 f Hf) as Hemax. pose proof (inf_power_emax f Hf) as Hinf.
+  pose proof (femin_bias f Hf) as Hfemin. pose proof bias_pos as HB.
+  fold B in Hfemin, Pbias. fold ms in Pms, Pbias.
+  set (exp := k + B). set (cb := cb_sticky (negb (rem =? 0))).
+  assert (He' : - 63 <= exp <= 2 ^ 30) by (unfold exp; lia).
+  assert (Hg : forall s, 1 <= s <= 64 -> mant / 2 ^ s <= rnd_cb cb mant s <= mant / 2 ^ s + 1)
+    by (intros; apply rnd_cb_bounds; lia).
+  pose proof (round_spec_shape f Hf (rnd_cb cb mant) mant exp Hm He' Hg) as Hshape.
+  eexists. eexists. split; [apply round_cb_Z; assumption|].
+  split; [apply (extended_to_float_fields f Hf); exact Hshape|].
+  (* the value *)
+  pose proof (pow2_pos k Hk) as HK. pose proof (pow2_pos ms ltac:(lia)) as Hpos.
+  pose proof (pow2_succ ms ltac:(lia)) as Hsucc.
+  assert (HXlow : 2 ^ (63 + k) <= X) by (rewrite pow2_split by lia; nia).
+  assert (HXhigh : X < 2 ^ (64 + k)) by (rewrite pow2_split by lia; nia).
+  assert (HXpos : 0 < X) by (pose proof (pow2_pos (63 + k) ltac:(lia)); lia).
+  unfold rne_bits. right.
+  unfold round_spec, pack_fields. cbv zeta. fold ms. set (sh := 63 - ms).
+  replace (exp <=? - sh) with false by (unfold exp, sh; lia).
+  set (M := rnd_cb cb mant sh).
+  assert (HM : M = rnd_ne X (sh + k)).
+  { unfold M, cb. apply rnd_cb_sticky; try assumption. unfold sh. lia. }
+  assert (Hg1 : 2 ^ ms <= M <= 2 ^ (ms + 1)).
+  { pose proof (Hg sh ltac:(unfold sh; lia)) as Hg1. fold M in Hg1.
+    pose proof (div_pow2_lt mant sh ltac:(lia) ltac:(unfold sh; lia)) as Hq.
+    replace (64 - sh) with (ms + 1) in Hq by (unfold sh; lia).
+    assert (2 ^ ms <= mant / 2 ^ sh).
+    { apply Z.div_le_lower_bound; [apply pow2_pos; unfold sh; lia|].
+      rewrite <- pow2_split by (unfold sh; lia). replace (sh + ms) with 63 by (unfold sh; lia). lia. }
+    lia. }
+  destruct (INFINITE_POWER f <=? exp + sh) eqn:Eov.
+  - (* overflow by the exponent: X >= 2^emax *)
+    left. split; [exact HXpos|]. split.
+    + rewrite Z.mul_1_r. apply Z.le_trans with (2 ^ (63 + k)); [|exact HXlow].
+      apply pow2_le. unfold exp, sh in Eov. lia.
+    + assert (Hres : (if INFINITE_POWER f <=? (if M =? 2 ^ (ms + 1) then exp + sh + 1 else exp + sh)
+                      then mkExt 0 (INFINITE_POWER f)
+                      else mkExt ((if M =? 2 ^ (ms + 1) then 2 ^ ms else M) - 2 ^ ms)
+                                 (if M =? 2 ^ (ms + 1) then exp + sh + 1 else exp + sh))
+                     = mkExt 0 (INFINITE_POWER f)).
+      { destruct (M =? 2 ^ (ms + 1)).
+        - replace (INFINITE_POWER f <=? exp + sh + 1) with true by lia. reflexivity.
+        - rewrite Eov. reflexivity. }
+      rewrite Hres. cbn [Num.mant Num.exp]. rewrite Z.lor_0_l. unfold inf_bits. fold ms.
+      rewrite Pinf. reflexivity.
+  - right. split; [exact HXpos|]. split.
+    + rewrite Z.mul_1_r. apply Z.lt_le_trans with (2 ^ (64 + k)); [exact HXhigh|].
+      apply pow2_le. unfold exp, sh in Eov. lia.
+    + set (E := k + sh).
+      assert (HE : 1 <= E) by (unfold E, sh; lia).
+      assert (Hnum : sc_num X E = X) by (unfold sc_num; replace (0 <=? E) with true by lia; reflexivity).
+      assert (Hden : sc_den 1 E = 2 ^ E)
+        by (unfold sc_den; replace (0 <=? E) with true by lia; apply Z.mul_1_l).
+      exists M, E. split; [|split].
+      * unfold canon_exp. rewrite Hnum, Hden. unfold prec. fold ms.
+        split; [unfold E, sh; lia|]. split.
+        -- rewrite <- pow2_split by lia. replace (ms + 1 + E) with (64 + k) by (unfold E, sh; lia).
+           exact HXhigh.
+        -- right. rewrite <- pow2_split by lia.
+           replace (ms + 1 - 1 + E) with (63 + k) by (unfold E, sh; lia). exact HXlow.
+      * unfold nearest_even. rewrite Hnum, Hden. rewrite HM.
+        replace (sh + k) with E by (unfold E; lia).
+        apply (nearest_even_of_shift X (2 ^ E) X E); [apply pow2_pos; lia|lia|reflexivity].
+      * unfold encode. fold ms. replace (M <? 2 ^ ms) with false by lia.
+        replace (E - femin f + 1) with (exp + sh) by (unfold E, exp; lia).
+        destruct (M =? 2 ^ (ms + 1)) eqn:Ec.
+        -- assert (HM2 : M = 2 ^ (ms + 1)) by lia. rewrite HM2.
+           destruct (INFINITE_POWER f <=? exp + sh + 1) eqn:Ei; cbn [Num.mant Num.exp].
+           ++ rewrite Z.lor_0_l. assert (INFINITE_POWER f = exp + sh + 1) by lia. lia.
+           ++ replace (2 ^ ms - 2 ^ ms) with 0 by lia. rewrite Z.lor_0_l. lia.
+        -- rewrite Eov. cbn [Num.mant Num.exp].
+           rewrite lor_low_high by lia. ring.
+Qed.
+
+End Sticky.
+
+(** ** 4. [positive_digit_comp] *)
+
+(** side conditions on the constants (checked by computation for the generated ones) *)
+Definition pdc_side (c : config) (T : tables) (L : limits) (f : format) : bool :=
+  rfmt_ok f && (LIMB_BITS L =? 64) && pow5_side c T L &&
+  (64 * BIGINT_LIMBS L + EXPONENT_BIAS f <=? 2 ^ 30).
+
+Lemma pdc_side_F64 c : pdc_side c TABLES LIMITS F64 = true.
+Proof. unfold pdc_side. rewrite pow5_side_TABLES. vm_compute. reflexivity. Qed.
+Lemma pdc_side_F32 c : pdc_side c TABLES LIMITS F32 = true.
+Proof. unfold pdc_side. rewrite pow5_side_TABLES. vm_compute. reflexivity. Qed.
+
+Lemma wraps32_small x : - 2 ^ 31 <= x < 2 ^ 31 -> as_i32 x = x.
+Proof.
+  intros H. unfold as_i32, wraps. change (32 - 1) with 31.
+  rewrite Z.mod_small; [lia|]. change (2 ^ 32) with (2 ^ 31 + 2 ^ 31). lia.
+Qed.
+
+Lemma wrapu_small n x : 0 <= x < 2 ^ n -> wrapu n x = x.
+Proof. intros H. unfold wrapu. apply Z.mod_small. exact H. Qed.
+
+Theorem positive_digit_comp_correct c T L f b bigmant exponent :
+  pdc_side c T L f = true ->
+  vgood c L bigmant -> 0 < lval (vl bigmant) ->
+  0 <= exponent < 2 ^ 31 ->
+  lval (vl bigmant) * 10 ^ exponent < B64 ^ BIGINT_LIMBS L ->
+  exists fp w,
+    positive_digit_comp c T L f b bigmant exponent = Ok fp /\
+    extended_to_float f b fp = Ok w /\
+    rne_bits f (lval (vl bigmant) * 10 ^ exponent) 1 w.
+Proof.
+  intros Hside G Hp He Hb.
+  unfold pdc_side in Hside. apply andb_prop in Hside. destruct Hside as [Hside Hrange].
+  apply andb_prop in Hside. destruct Hside as [Hside Hpow].
+  apply andb_prop in Hside. destruct Hside as [Hf HL]. apply Z.eqb_eq in HL. apply Z.leb_le in Hrange.
+  pose proof (bias_pos f Hf) as HB.
+  set (N := lval (vl bigmant)) in *. set (X := N * 10 ^ exponent) in *.
+  assert (H231 : 2 ^ 31 < 2 ^ 32) by (vm_compute; reflexivity).
+  assert (H232 : 2 ^ 32 < 2 ^ 64) by (vm_compute; reflexivity).
+  assert (H230 : 2 ^ 30 < 2 ^ 31) by (vm_compute; reflexivity).
+  assert (Hlimbs : BIGINT_LIMBS L < 2 ^ 26).
+  { change (2 ^ 30) with (64 * 2 ^ 24) in Hrange. assert (2 ^ 24 < 2 ^ 26) by (vm_compute; reflexivity). lia. }
+  pose proof (Z.pow_pos_nonneg 5 exponent ltac:(lia) ltac:(lia)) as H5e.
+  pose proof (pow2_pos exponent ltac:(lia)) as H2e.
+  assert (E10 : 10 ^ exponent = 5 ^ exponent * 2 ^ exponent).
+  { change 10 with (5 * 2). apply Z.pow_mul_l. }
+  unfold positive_digit_comp.
+  unfold as_u32. rewrite wrapu_small by lia.
+  rewrite bigint_pow_10.
+  destruct (pow5_good c T L b bigmant exponent Hpow G Hp ltac:(lia)) as (v1 & E1 & V1 & G1).
+  { fold N. unfold X in Hb. rewrite E10 in Hb. nia. }
+  rewrite E1, obind_ok_some. unfold as_usize. rewrite wrapu_small by lia.
+  destruct (shl_good c L b HL Hlimbs v1 exponent G1 ltac:(rewrite V1; fold N; nia) ltac:(lia))
+    as (big & E2 & V2 & O2 & N2 & Z2).
+  { rewrite V1. fold N. rewrite <- Z.mul_assoc, <- E10. exact Hb. }
+  rewrite E2. cbn [bind unwrap].
+  assert (VX : lval (vl big) = X).
+  { rewrite V2, V1. fold N. unfold X. rewrite E10. ring. }
+  assert (HXpos : 0 < X) by (unfold X; apply Z.mul_pos_pos; [exact Hp|apply Z.pow_pos_nonneg; lia]).
+  assert (Hne : vl big <> []) by (apply lval_pos_nonempty; rewrite VX; exact HXpos).
+  assert (Z2' : zlen (vl big) < 2 ^ 26) by lia.
+  rewrite hi64_spec; [|exact O2|exact Hne|exact N2|].
+  2:{ apply Z.lt_trans with (2 ^ 26); [exact Z2'|]. vm_compute. reflexivity. }
+  destruct (bit_length_spec L b (vl big) HL O2 Hne N2 Z2') as (n & En & Hn0 & Hnb & _ & Hbl & Hnlen).
+  rewrite VX in *.
+  cbn [bind]. destruct (hi64_val X) as [m tr] eqn:Ehv.
+  rewrite En. cbn [bind].
+  assert (Hn30 : n <= 64 * BIGINT_LIMBS L) by lia.
+  rewrite wraps32_small by lia.
+  unfold i32_sub, i32_add. rewrite sop32_ok by lia. cbn [bind]. rewrite sop32_ok by lia. cbn [bind].
+  pose proof (hi64_val_bounds X HXpos) as Hmb. rewrite Ehv in Hmb. cbn [fst] in Hmb.
+  unfold hi64_val in Ehv. cbv zeta in Ehv. rewrite <- Hbl in Ehv.
+  fold (cb_sticky tr).
+  destruct (64 <=? n) eqn:E64;
+    pose proof (f_equal fst Ehv) as Em; pose proof (f_equal snd Ehv) as Et; cbn [fst snd] in Em, Et; clear Ehv.
+  - (* at least 64 bits: the low bits are dropped, [tr] is the sticky flag *)
+    set (k := n - 64) in *. set (rem := X mod 2 ^ k) in *.
+    pose proof (pow2_pos k ltac:(unfold k; lia)) as HK.
+    replace (n - 64 + EXPONENT_BIAS f) with (k + EXPONENT_BIAS f) by (unfold k; lia).
+    rewrite <- Et.
+    apply (sticky_rne_bits f Hf b X m k rem); try assumption; try (unfold k; lia).
+    + rewrite <- Em. unfold rem. rewrite Z.mul_comm. apply Z.div_mod. lia.
+    + apply Z.mod_pos_bound. exact HK.
+  - (* fewer than 64 bits: exact *)
+    rewrite <- Et.
+    apply (sticky_exact_rne_bits f Hf b m (n - 64 + EXPONENT_BIAS f) X 1); try assumption; try lia.
+    unfold same_value.
+    replace (Z.max 0 (EXPONENT_BIAS f - (n - 64 + EXPONENT_BIAS f))) with (64 - n) by lia.
+    replace (Z.max 0 (n - 64 + EXPONENT_BIAS f - EXPONENT_BIAS f)) with 0 by lia.
+    rewrite <- Em. rewrite Z.pow_0_r. ring.
+Qed.
+
+(** *** Examples for [positive_digit_comp] *)
+Definition pdc_bits c b (l : list Z) (e : Z) : option Z :=
+  match positive_digit_comp c TABLES LIMITS F64 b (mkVec l 62) e with
+  | Ok fp => match extended_to_float F64 b fp with Ok w => Some w | _ => None end
+  | _ => None
+  end.
+
+(** 2^53 + 1 is a tie between 2^53 and 2^53 + 2: to even; 2^53 + 3 goes up to 2^53 + 4;
+    a sticky bit far below breaks the tie upwards: (2^53 + 1) * 2^100 + 1 *)
+Example pdc_tie :
+  pdc_bits CFG_s checked_build [2 ^ 53 + 1] 0 = Some (1076 * 2 ^ 52) /\
+  pdc_bits CFG_sc release_build [2 ^ 53 + 3] 0 = Some (1076 * 2 ^ 52 + 2) /\
+  pdc_bits CFG_sa checked_build [1; (2 ^ 53 + 1) * 2 ^ 36 mod 2 ^ 64; (2 ^ 53 + 1) * 2 ^ 36 / 2 ^ 64] 0
+    = Some (1176 * 2 ^ 52 + 1) /\
+  pdc_bits CFG_sa checked_build [0; (2 ^ 53 + 1) * 2 ^ 36 mod 2 ^ 64; (2 ^ 53 + 1) * 2 ^ 36 / 2 ^ 64] 0
+    = Some (1176 * 2 ^ 52).
+Proof. vm_compute. repeat split; reflexivity. Qed.
+
+(** 10^400 overflows to infinity; 10^308 does not; 17976931348623158 * 10^292 is below the
+    midpoint (2 - 2^-53) * 2^1023 and rounds to the largest finite double, 17976931348623159 * 10^292
+    is above it and rounds to infinity *)
+Example pdc_inf :
+  pdc_bits CFG_s checked_build [1] 400 = Some (2047 * 2 ^ 52) /\
+  pdc_bits CFG_nca release_build [1] 400 = Some (2047 * 2 ^ 52) /\
+  pdc_bits CFG_s checked_build [1] 308 = Some 9214871658872686752 /\
+  pdc_bits CFG_s checked_build [17976931348623158] 292 = Some (2047 * 2 ^ 52 - 1) /\
+  pdc_bits CFG_s checked_build [17976931348623159] 292 = Some (2047 * 2 ^ 52).
+Proof. vm_compute. repeat split; reflexivity. Qed.
+
+(** the hypotheses of the theorem on an instance: 123 * 10^30 *)
+Example positive_digit_comp_inst c b :
+  exists fp w, positive_digit_comp c TABLES LIMITS F64 b (mkVec [123] 62) 30 = Ok fp /\
+               extended_to_float F64 b fp = Ok w /\ rne_bits F64 (123 * 10 ^ 30) 1 w.
+Proof.
+  apply (positive_digit_comp_correct c TABLES LIMITS F64 b (mkVec [123] 62) 30 (pdc_side_F64 c)).
+  - unfold vgood. cbn [vl vcap]. split; [apply limbs_ok_forallb; reflexivity|].
+    split; [reflexivity|]. split; [vm_compute; discriminate|]. split; [vm_compute; discriminate|].
+    intros _. reflexivity.
+  - cbn [vl lval]. lia.
+  - split; [lia|vm_compute; reflexivity].
+  - vm_compute. reflexivity.
+Qed.
+
+(** normalisation of the operand ([vgood]) cannot be dropped: with a zero top limb [hi64] shifts
+    by 64 (panic with overflow checks, a wrong result without) *)
+Example positive_digit_comp_unnormalised :
+  positive_digit_comp CFG_s TABLES LIMITS F64 checked_build (mkVec [5; 0] 62) 0 = Panic PkOverflow /\
+  positive_digit_comp CFG_s TABLES LIMITS F64 release_build (mkVec [5; 0] 62) 0 = Ok (mkExt 0 1086) /\
+  positive_digit_comp CFG_s TABLES LIMITS F64 release_build (mkVec [5] 62) 0 = Ok (mkExt (2 ^ 50) 1025).
+Proof. vm_compute. repeat split; reflexivity. Qed.
+
+(** ** 5. [slow], positive exponent *)
+
+Lemma land_bit63 m : 2 ^ 63 <= m < 2 ^ 64 -> negb (Z.land m (2 ^ 63) =? 0) = true.
+Proof.
+  intros Hm. destruct (Z.eqb_spec (Z.land m (2 ^ 63)) 0) as [E|E]; [exfalso|reflexivity].
+  assert (Hb : Z.testbit (Z.land m (2 ^ 63)) 63 = false) by (rewrite E; apply Z.bits_0).
+  rewrite Z.land_spec, Z.pow2_bits_true, andb_true_r in Hb by lia.
+  assert (Ht : Z.testbit m 63 = true).
+  { apply Z.testbit_true; [lia|].
+    assert (m / 2 ^ 63 = 1).
+    { symmetry. apply (Z.div_unique_pos m (2 ^ 63) 1 (m - 2 ^ 63)); [|ring].
+      change (2 ^ 64) with (2 * 2 ^ 63) in Hm. lia. }
+    rewrite H. reflexivity. }
+  congruence.
+Qed.
+
+Definition slow_side (c : config) (T : tables) (L : limits) (f : format) : bool :=
+  pdc_side c T L f && pm_tables_ok c T && (0 <? MAX_DIGITS f) && (MAX_DIGITS f <? 2 ^ 30) &&
+  (10 ^ (MAX_DIGITS f + 1) <=? B64 ^ BIGINT_LIMBS L).
+
+Lemma slow_side_F64 c : slow_side c TABLES LIMITS F64 = true.
+Proof. unfold slow_side. rewrite pdc_side_F64, pm_tables_ok_TABLES. vm_compute. reflexivity. Qed.
+Lemma slow_side_F32 c : slow_side c TABLES LIMITS F32 = true.
+Proof. unfold slow_side. rewrite pdc_side_F32, pm_tables_ok_TABLES. vm_compute. reflexivity. Qed.
+
+(** [slow] on a number whose significand has [d] decimal digits: with a non-negative
+    [exponent = nexp n + d - count] it is [positive_digit_comp] on the parsed big integer, and the
+    packed result is the correct rounding of [bigmant * 10^exponent]. *)
+Theorem slow_positive_correct c T L f b n fp i fr d :
+  slow_side c T L f = true ->
+  2 ^ 63 <= mant fp < 2 ^ 64 ->
+  ndigits_is (nmant n) d -> nmant n < 2 ^ 64 -> - 2 ^ 30 <= nexp n < 2 ^ 31 - 64 ->
+  forallb digitb i = true -> forallb digitb fr = true ->
+  (forall ch r, i = ch :: r -> ch <> 48) -> strip0 (i ++ fr) <> [] ->
+  exists v cnt,
+    parse_mantissa c T L b i fr (MAX_DIGITS f) = Ok (v, cnt) /\
+    (lval (vl v), cnt) = pm_out (MAX_DIGITS f) [] (strip0 (i ++ fr)) /\
+    vgood c L v /\ 0 < lval (vl v) /\
+    let exponent := nexp n + d - cnt in
+    (0 <= exponent ->
+     slow c T L f b n fp i fr = positive_digit_comp c T L f b v exponent /\
+     (lval (vl v) * 10 ^ exponent < B64 ^ BIGINT_LIMBS L ->
+      exists r w, slow c T L f b n fp i fr = Ok r /\ extended_to_float f b r = Ok w /\
+                  rne_bits f (lval (vl v) * 10 ^ exponent) 1 w)).
+Proof.
+  intros Hside Hfp Hd Hm He Hi Hfr Hlead Hne.
+  unfold slow_side in Hside. apply andb_prop in Hside. destruct Hside as [Hside Hcap].
+  apply andb_prop in Hside. destruct Hside as [Hside Hmax2].
+  apply andb_prop in Hside. destruct Hside as [Hside Hmax].
+  apply andb_prop in Hside. destruct Hside as [Hpdc Hpm].
+  apply Z.leb_le in Hcap. apply Z.ltb_lt in Hmax. apply Z.ltb_lt in Hmax2.
+  assert (H230 : 2 ^ 30 + 2 ^ 30 = 2 ^ 31) by reflexivity.
+  assert (H64 : 64 < 2 ^ 30) by (vm_compute; reflexivity).
+  destruct (parse_mantissa_spec c T L b (MAX_DIGITS f) i fr Hpm Hcap Hmax Hi Hfr Hlead)
+    as (v & cnt & E & G & _ & _ & Hpos & _ & Hcnt).
+  destruct (parse_mantissa_closed c T L b (MAX_DIGITS f) Hpm Hcap Hmax i fr Hi Hfr Hlead)
+    as (v' & cnt' & E' & V' & _).
+  rewrite E in E'. injection E' as <- <-.
+  specialize (Hpos Hne).
+  exists v, cnt. split; [exact E|]. split; [exact V'|]. split; [exact G|]. split; [exact Hpos|].
+  cbv zeta. intros Hexp.
+  pose proof (ndigits_is_u64 _ _ Hd Hm) as Hd20. pose proof Hd as [Hd1 _].
+  assert (Hslow : slow c T L f b n fp i fr = positive_digit_comp c T L f b v (nexp n + d - cnt)).
+  { unfold slow. rewrite land_bit63 by exact Hfp.
+    unfold debug_assert. cbn [negb]. rewrite andb_false_r. cbn [bind].
+    rewrite (scientific_exponent_spec b n d Hd Hm) by lia. cbn [bind].
+    rewrite E. cbn [bind].
+    unfold i32_add, i32_sub. rewrite sop32_ok by lia. cbn [bind].
+    rewrite wraps32_small by lia. rewrite sop32_ok by lia. cbn [bind].
+    replace (nexp n + d - 1 + 1 - cnt) with (nexp n + d - cnt) by lia.
+    replace (0 <=? nexp n + d - cnt) with true by lia. reflexivity. }
+  split; [exact Hslow|]. intros Hb. rewrite Hslow.
+  apply (positive_digit_comp_correct c T L f b v (nexp n + d - cnt) Hpdc G Hpos); [lia|exact Hb].
+Qed.
+
+(** *** the number produced by the first stage *)
+
+Lemma all0_value l : all0 l = true -> digits_to_Z l = 0.
+Proof.
+  induction l as [|x l IH]; intros H; [reflexivity|].
+  cbn [all0 forallb] in H. apply andb_prop in H. destruct H as [Hx H].
+  rewrite digits_to_Z_cons_lin, (IH H). lia.
+Qed.
+
+Lemma not_all0_value l : forallb digitb l = true -> all0 l = false -> 0 < digits_to_Z l.
+Proof.
+  induction l as [|x l IH]; intros Hd H; [discriminate|].
+  cbn [forallb] in Hd. apply andb_prop in Hd. destruct Hd as [Hx Hd].
+  apply digitb_range in Hx. cbn [all0 forallb] in H.
+  rewrite digits_to_Z_cons_lin. pose proof (digits_bound l Hd) as Hb.
+  pose proof (p10_pos (zlen l) (zlen_nonneg l)) as Hp.
+  destruct (Z.eqb_spec x 48) as [->|Hne]; cbn [andb] in H.
+  - specialize (IH Hd H). lia.
+  - nia.
+Qed.
+
+(** the first 19 significant digits have [min D 19] digits *)
+Lemma first19_ndigits s :
+  forallb digitb s = true -> s <> [] -> (forall ch r, s = ch :: r -> ch <> 48) ->
+  ndigits_is (digits_to_Z (firstn 19 s)) (Z.min (zlen s) 19) /\ digits_to_Z (firstn 19 s) < 2 ^ 64.
+Proof.
+  intros Hd Hne Hlead. destruct s as [|ch r]; [congruence|]. specialize (Hlead ch r eq_refl).
+  change (firstn 19 (ch :: r)) with (ch :: firstn 18 r).
+  assert (Hd' : forallb digitb (ch :: firstn 18 r) = true).
+  { cbn [forallb] in *. apply andb_prop in Hd. destruct Hd as [H1 H2]. rewrite H1. cbn [andb].
+    rewrite <- (firstn_skipn 18 r) in H2. apply forallb_app_l in H2. exact H2. }
+  pose proof (digits_lower ch (firstn 18 r) Hd' Hlead) as Hlow.
+  pose proof (digits_bound _ Hd') as Hup.
+  rewrite zlen_cons in *. rewrite ParseFacts.zlen_firstn in *. pose proof (zlen_nonneg r) as Hr.
+  change (Z.of_nat 18) with 18 in *.
+  replace (Z.min (zlen r + 1) 19) with (Z.min 18 (zlen r) + 1) by lia.
+  split.
+  - split; [lia|]. replace (Z.min 18 (zlen r) + 1 - 1) with (Z.min 18 (zlen r)) by lia. lia.
+  - pose proof (p10_le (Z.min 18 (zlen r) + 1) 19 ltac:(lia)).
+    pose proof p10_19_lt_B64. change B64 with (2 ^ 64) in *. lia.
+Qed.
+
+(** [slow] on the output of [parse_number] ([parse_spec]): the decimal exponent handed to
+    [positive_digit_comp] is [(e - zlen fr) + (D - count)], the exponent of the last digit kept *)
+Theorem slow_positive_parse c T L f b fp i fr e :
+  slow_side c T L f = true ->
+  2 ^ 63 <= mant fp < 2 ^ 64 ->
+  forallb digitb i = true -> forallb digitb fr = true ->
+  (forall ch r, i = ch :: r -> ch <> 48) ->
+  let s := strip0 (i ++ fr) in
+  let D := zlen s in
+  let X := e - zlen fr in
+  s <> [] -> - 2 ^ 29 <= X <= 2 ^ 29 -> zlen i + zlen fr <= 2 ^ 29 ->
+  exists v cnt,
+    parse_mantissa c T L b i fr (MAX_DIGITS f) = Ok (v, cnt) /\
+    (lval (vl v), cnt) = pm_out (MAX_DIGITS f) [] s /\ vgood c L v /\ 0 < lval (vl v) /\
+    let exponent := X + D - cnt in
+    (0 <= exponent ->
+     slow c T L f b (parse_spec i fr e) fp i fr = positive_digit_comp c T L f b v exponent /\
+     (lval (vl v) * 10 ^ exponent < B64 ^ BIGINT_LIMBS L ->
+      exists r w, slow c T L f b (parse_spec i fr e) fp i fr = Ok r /\
+                  extended_to_float f b r = Ok w /\
+                  rne_bits f (lval (vl v) * 10 ^ exponent) 1 w)).
+Proof.
+  intros Hside Hfp Hi Hfr Hlead s D X Hne HX Hlen.
+  assert (Hsd : forallb digitb s = true).
+  { apply strip0_digits. rewrite forallb_app, Hi, Hfr. reflexivity. }
+  assert (Hshead : forall ch r, s = ch :: r -> ch <> 48) by (intros ch r; apply strip0_head).
+  destruct (first19_ndigits s Hsd Hne Hshead) as [Hnd Hm64].
+  assert (HD : 0 <= D <= zlen i + zlen fr).
+  { unfold D. split; [apply zlen_nonneg|]. unfold s. pose proof (strip0_len (i ++ fr)) as H.
+    rewrite ParseFacts.zlen_app in H. exact H. }
+  assert (H229 : 2 ^ 29 + 2 ^ 29 = 2 ^ 30) by reflexivity.
+  assert (H230 : 2 ^ 30 + 2 ^ 30 = 2 ^ 31) by reflexivity.
+  assert (H64 : 64 < 2 ^ 29) by (vm_compute; reflexivity).
+  assert (Hnexp : nexp (parse_spec i fr e) = X + Z.max 0 (D - 19)).
+  { unfold parse_spec. cbn [nexp]. fold s D X. apply clamp_i32_id. unfold i32_min, i32_max. lia. }
+  assert (Hnm : nmant (parse_spec i fr e) = digits_to_Z (firstn 19 s)) by reflexivity.
+  destruct (slow_positive_correct c T L f b (parse_spec i fr e) fp i fr (Z.min D 19) Hside Hfp)
+    as (v & cnt & E & V & G & Hpos & Hmain); try assumption.
+  - rewrite Hnexp. lia.
+  - exists v, cnt. split; [exact E|]. split; [exact V|]. split; [exact G|]. split; [exact Hpos|].
+    cbv zeta in Hmain |- *. rewrite Hnexp in Hmain.
+    replace (X + Z.max 0 (D - 19) + Z.min D 19 - cnt) with (X + D - cnt) in Hmain by lia.
+    exact Hmain.
+Qed.
+
+(** when every significant digit is kept ([D <= MAX_DIGITS], or only zeros are dropped) and the
+    exponent of the last digit [X = e - zlen fr] is non-negative, the rounded integer is the exact
+    decimal value [digits * 10^X] of the input *)
+Theorem slow_positive_exact c T L f b fp i fr e :
+  slow_side c T L f = true ->
+  2 ^ 63 <= mant fp < 2 ^ 64 ->
+  forallb digitb i = true -> forallb digitb fr = true ->
+  (forall ch r, i = ch :: r -> ch <> 48) ->
+  let s := strip0 (i ++ fr) in
+  let D := zlen s in
+  let X := e - zlen fr in
+  let W := digits_to_Z (i ++ fr) in
+  s <> [] -> 0 <= X <= 2 ^ 29 -> zlen i + zlen fr <= 2 ^ 29 ->
+  (D <= MAX_DIGITS f \/ all0 (skipn (Z.to_nat (MAX_DIGITS f)) s) = true) ->
+  W * 10 ^ X < B64 ^ BIGINT_LIMBS L ->
+  exists r w, slow c T L f b (parse_spec i fr e) fp i fr = Ok r /\
+              extended_to_float f b r = Ok w /\
+              rne_bits f (dec_num W X) (dec_den X) w.
+Proof.
+  intros Hside Hfp Hi Hfr Hlead s D X W Hne HX Hlen Hkept Hb.
+  destruct (slow_positive_parse c T L f b fp i fr e Hside Hfp Hi Hfr Hlead Hne ltac:(fold X; lia) Hlen)
+    as (v & cnt & E & V & G & Hpos & Hmain).
+  fold s D X in V, Hmain. cbv zeta in Hmain.
+  assert (Hmax : 0 < MAX_DIGITS f).
+  { unfold slow_side in Hside. repeat (apply andb_prop in Hside; destruct Hside as [Hside ?]). lia. }
+  assert (HD0 : 0 <= D) by apply zlen_nonneg.
+  assert (HW : W = digits_to_Z s) by (unfold W, s; symmetry; apply strip0_value).
+  assert (Hval : 0 <= X + D - cnt /\ lval (vl v) * 10 ^ (X + D - cnt) = W * 10 ^ X).
+  { destruct (Z_le_gt_dec D (MAX_DIGITS f)) as [Hle|Hgt].
+    - rewrite pm_out_short in V by exact Hle. injection V as V1 V2. rewrite V1, V2, HW.
+      replace (X + D - zlen s) with X by (unfold D; lia). split; [lia|reflexivity].
+    - destruct Hkept as [Hk|Hk]; [lia|].
+      rewrite pm_out_long in V by (fold D; lia). rewrite Hk in V. injection V as V1 V2.
+      set (k := Z.to_nat (MAX_DIGITS f)) in *.
+      pose proof (digits_split k s) as Hsp. rewrite (all0_value _ Hk), Z.add_0_r in Hsp.
+      rewrite ParseFacts.zlen_skipn in Hsp. fold D in Hsp.
+      replace (Z.max 0 (D - Z.of_nat k)) with (D - MAX_DIGITS f) in Hsp by lia.
+      rewrite V1, V2, HW, Hsp. split; [lia|].
+      replace (X + D - MAX_DIGITS f) with (D - MAX_DIGITS f + X) by lia.
+      rewrite p10_add by lia. ring. }
+  destruct Hval as [Hexp Hval].
+  destruct (Hmain Hexp) as [_ Hrne]. rewrite Hval in Hrne.
+  destruct (Hrne Hb) as (r & w & R & Wd & S). exists r, w. split; [exact R|]. split; [exact Wd|].
+  unfold dec_num, dec_den. replace (0 <=? X) with true by lia. exact S.
+Qed.
+
+(** when non-zero digits are dropped, [parse_mantissa] returns the proxy [N0 * 10 + 1] (one more
+    digit): like the exact significand it lies strictly between [N0] and [N0 + 1] units of the last
+    digit kept (that the two round alike is the argument about MAX_DIGITS, not proved here) *)
+Theorem pm_out_truncated_bracket maxd s :
+  0 < maxd -> forallb digitb s = true -> maxd < zlen s ->
+  all0 (skipn (Z.to_nat maxd) s) = false ->
+  let N0 := digits_to_Z (firstn (Z.to_nat maxd) s) in
+  let t := zlen s - maxd in
+  pm_out maxd [] s = (N0 * 10 + 1, maxd + 1) /\
+  N0 * 10 ^ t < digits_to_Z s < (N0 + 1) * 10 ^ t /\
+  N0 * 10 ^ t < (N0 * 10 + 1) * 10 ^ (t - 1) < (N0 + 1) * 10 ^ t.
+Proof.
+  intros Hm Hd Hlen Hnz N0 t.
+  rewrite pm_out_long by lia. rewrite Hnz. split; [reflexivity|].
+  set (k := Z.to_nat maxd) in *.
+  pose proof (digits_split k s) as Hsp. fold N0 in Hsp.
+  rewrite ParseFacts.zlen_skipn in Hsp. replace (Z.max 0 (zlen s - Z.of_nat k)) with t in Hsp by (unfold t; lia).
+  assert (Htd : forallb digitb (skipn k s) = true).
+  { rewrite <- (firstn_skipn k s) in Hd. apply forallb_app_r in Hd. exact Hd. }
+  pose proof (not_all0_value _ Htd Hnz) as Hlow. pose proof (digits_bound _ Htd) as Hup.
+  rewrite ParseFacts.zlen_skipn in Hup. replace (Z.max 0 (zlen s - Z.of_nat k)) with t in Hup by (unfold t; lia).
+  assert (Ht : 1 <= t) by (unfold t; lia).
+  assert (E10 : 10 ^ t = 10 * 10 ^ (t - 1)).
+  { replace t with (1 + (t - 1)) at 1 by lia. rewrite p10_add by lia. reflexivity. }
+  pose proof (p10_pos (t - 1) ltac:(lia)) as Hp.
+  split; [lia|]. rewrite E10. nia.
+Qed.
+
+Example slow_positive_ex :
+  (* "9007199254740993" = 2^53 + 1: a tie, rounds to even *)
+  let i := [57;48;48;55;49;57;57;50;53;52;55;52;48;57;57;51] in
+  valid_inputb i [] 0 = true /\
+  match slow CFG_s TABLES LIMITS F64 checked_build (parse_spec i [] 0) (mkExt (2 ^ 63) 0) i [] with
+  | Ok r => extended_to_float F64 checked_build r = Ok (1076 * 2 ^ 52)
+  | _ => False
+  end.
+Proof. vm_compute. split; reflexivity. Qed.
+
+(** the hypotheses of [slow_positive_exact] on an instance, every configuration and build:
+    "90071992547409.93" e2 *)
+Example slow_positive_exact_inst c b :
+  let i := [57;48;48;55;49;57;57;50;53;52;55;52;48;57] in
+  let fr := [57;51] in
+  exists r w, slow c TABLES LIMITS F64 b (parse_spec i fr 2) (mkExt (2 ^ 63) 0) i fr = Ok r /\
+              extended_to_float F64 b r = Ok w /\ rne_bits F64 9007199254740993 1 w.
+Proof.
+  intros i fr.
+  destruct (slow_positive_exact c TABLES LIMITS F64 b (mkExt (2 ^ 63) 0) i fr 2 (slow_side_F64 c))
+    as (r & w & R & W & S); try reflexivity.
+  - cbn [mant]. split; [lia|vm_compute; reflexivity].
+  - intros ch r H. injection H as <- _. discriminate.
+  - discriminate.
+  - vm_compute. split; discriminate.
+  - vm_compute. discriminate.
+  - left. vm_compute. discriminate.
+  - exists r, w. split; [exact R|]. split; [exact W|exact S].
+Qed.
+
+Print Assumptions positive_digit_comp_correct.
+Print Assumptions slow_positive_correct.
+Print Assumptions slow_positive_parse.
+Print Assumptions slow_positive_exact.
+Print Assumptions pm_out_truncated_bracket.
